@@ -1,7 +1,7 @@
 //! Seeded workload generators: one integer -> one case (scenario, parameters, policy, fault plan).
 
-use crate::case::{Case, DItem, Mode, Sweep, GK};
-use crate::corpus::{Root, ROOTS, SIBLINGS};
+use crate::case::{Case, DItem, Descend, Mode, Sweep, GK};
+use crate::corpus::{Root, ODD_FENS, ROOTS, SIBLINGS};
 use crate::model::Pos;
 use crate::verif_shim::sched::{splitmix, Policy};
 
@@ -248,6 +248,13 @@ pub fn gen_session(prop: &str, seed: u64, profile: u8, faults: bool) -> Case {
                 7 => case.push(GK::Retreat(rng.range(1, 2) as u32)),
                 _ => {} // revisit the same position
             }
+            if profile == 1 && rng.chance(1, 6) {
+                // repetition shuffle back to the position just searched (root repetition filter + cached root entry)
+                case.push(GK::RepeatAfterBest);
+                case.push(GK::PosCur);
+                case.raw(format!("go depth {}", rng.range(1, max_depth_for(class))));
+                case.push(GK::AwaitBest);
+            }
             if profile == 1 && rng.chance(1, 5) {
                 // search a sibling position in between without clearing the table
                 let grp = rng.pick(SIBLINGS);
@@ -299,7 +306,18 @@ pub fn gen_direct_history(prop: &str, seed: u64, faults: bool) -> Case {
             } else {
                 None
             };
-            case.items.push(DItem { root: root.clone(), moves: line[..at].to_vec(), depth: Some(depth), stop_at, fresh: false, isolated: false, sweep: None });
+            case.items.push(DItem { root: root.clone(), moves: line[..at].to_vec(), depth: Some(depth), stop_at, fresh: false, isolated: false, sweep: None, descend: None });
+            if rng.chance(1, 4) {
+                // follow the previous search into its own tree: a position the table holds an entry for
+                let mut d = ditem(&root, &[], Some(rng.range(1, max_depth_for(cls)) as u8), None);
+                d.descend = Some(Descend { plies: rng.range(1, 2) as u8, pick: rng.next() });
+                if faults && rng.chance(1, 3) {
+                    d.stop_at = Some(rng.below(40));
+                }
+                case.items.push(d);
+                // the line continues from where it was
+                case.items.push(ditem(&root, &line[..at], Some(rng.range(1, max_depth_for(cls)) as u8), None));
+            }
             match rng.below(10) {
                 0..=4 => at = (at + rng.range(1, 2) as usize).min(line.len()),
                 5 => at = at.saturating_sub(rng.range(1, 2) as usize),
@@ -343,7 +361,7 @@ pub fn walk_from(rng: &mut Rng, root: &str, pre: &[String], n: u64) -> Vec<Strin
 }
 
 fn ditem(root: &str, moves: &[String], depth: Option<u8>, stop_at: Option<u64>) -> DItem {
-    DItem { root: root.to_string(), moves: moves.to_vec(), depth, stop_at, fresh: false, isolated: false, sweep: None }
+    DItem { root: root.to_string(), moves: moves.to_vec(), depth, stop_at, fresh: false, isolated: false, sweep: None, descend: None }
 }
 
 fn direct_params(case: &mut Case, max_polls: u64) {
@@ -384,6 +402,13 @@ pub fn gen_c07(seed: u64, thorough: bool) -> Case {
             }
         }
         let mut it = ditem(&root, &pre, Some(depth), None);
+        if rng.chance(1, 2) {
+            // sweep a position inside the tree of an earlier, deeper search (whatever entry that search left for it)
+            case.items.clear();
+            case.items.push(ditem(&root, &pre, Some((depth + rng.range(1, 2) as u8).min(max_depth_for(class) as u8 + 1)), None));
+            it.descend = Some(Descend { plies: rng.range(1, 2) as u8, pick: rng.next() });
+            case.family = "direct-stop-sweep/table-guided".into();
+        }
         it.sweep = Some(if thorough { Sweep { all_upto: 3_000, head: 200, samples: 500, seed } } else { Sweep { all_upto: 40, head: 3, samples: 20, seed } });
         case.items.push(it);
         case
@@ -537,16 +562,18 @@ pub fn gen_c08(seed: u64, thorough: bool) -> Case {
     } else if fam == 4 {
         // large depth limits on tiny roots
         let mut case = Case::new("C08", "direct-large-depth-limit", seed, Mode::Direct);
-        let cap = if thorough { 4_000_000 } else { 300_000 };
+        let cap = if thorough { 6_000_000 } else { 1_600_000 };
         direct_params(&mut case, cap);
-        let r = rng.pick(&tiny);
-        let n = *rng.pick(&[8u8, 16, 31, 32, 33, 34, 35, 40, 63, 64, 65, 100, 127, 128, 200, 254, 255]);
+        let n = *rng.pick(&[8u8, 16, 31, 32, 33, 34, 35, 40, 63, 64, 65, 66, 100, 127, 128, 200, 254, 255]);
+        // limits beyond 40 are only reachable within the budget on bare kings
+        let bare: Vec<&Root> = ROOTS.iter().filter(|r| r.name.starts_with("KvK")).collect();
+        let r = if n > 40 { *rng.pick(&bare) } else { *rng.pick(&tiny) };
         case.items.push(ditem(r.fen, &[], Some(n), None));
         case
     } else if fam <= 6 {
         // (b) unlimited search on a tiny root left running for a seeded number of polls, then stopped
         let mut case = Case::new("C08", "direct-unlimited-run-length", seed, Mode::Direct);
-        let cap: u64 = if thorough { 20_000_000 } else { 200_000 };
+        let cap: u64 = if thorough { 20_000_000 } else { 500_000 };
         direct_params(&mut case, cap + 10_000);
         let r = rng.pick(&tiny);
         let pre_n = rng.below(6);
@@ -626,6 +653,46 @@ pub fn gen_c13(seed: u64, _thorough: bool) -> Case {
         case.raw("quit");
         return case;
     }
+    if fam == 6 {
+        // a timed search of a position the table already knows, reached again by a repetition shuffle:
+        // the stop must still be honoured when the first iteration starts from a cached depth
+        case.family = "warm-table-and-shuffle".into();
+        case.params.policy = match rng.below(3) {
+            0 => Policy::Np,
+            1 => Policy::Rw(50),
+            _ => Policy::Pct(2),
+        };
+        case.params.fair = *rng.pick(&[2u32, 8, 64]);
+        case.params.node_cost = *rng.pick(&[50_000u64, 100_000, 1_000_000]);
+        case.params.tt_cap = 1024;
+        case.params.max_polls = 400_000;
+        case.params.max_steps = 1_500_000;
+        case.steps.clear();
+        let r2 = *rng.pick(&["startpos", "italian", "sicilian-b", "kiwipete", "perft6", "castle-only", "rook-endgame", "minor-endgame", "KBNK", "knights-tour"]);
+        let root2 = ROOTS.iter().find(|x| x.name == r2).unwrap();
+        let n2 = rng.range(1, 4);
+        let pre2 = walk(&mut rng, root2.fen, n2);
+        case.push(GK::NewGame { root: root_cmd(root2), pre: pre2 });
+        case.push(GK::PosCur);
+        case.raw(format!("go depth {}", rng.range(2, max_depth_for(root2.class).max(3))));
+        case.push(GK::AwaitBest);
+        if rng.chance(3, 4) {
+            case.push(GK::RepeatAfterBest);
+        }
+        case.push(GK::PosCur);
+        let polls = if rng.chance(1, 2) { rng.below(6) } else { rng.log_uniform(1, 300) };
+        if rng.chance(1, 2) {
+            case.raw(format!("go movetime {}", movetime_for(&case, polls)));
+        } else {
+            let want = movetime_for(&case, polls) - 5;
+            let own = rng.log_uniform(1_000, 600_000u64.min(50 * (want + 155)));
+            let inc = (want + 155).saturating_sub(own / 50);
+            case.push(GK::GoClock { own, own_inc: inc, opp: rng.log_uniform(1, 600_000), opp_inc: 0 });
+        }
+        case.push(GK::AwaitBest);
+        case.raw("quit");
+        return case;
+    }
     let tight = fam <= 3;
     if tight {
         // the simulator's own slack stays below the engine's 5 ms allowance
@@ -650,13 +717,13 @@ pub fn gen_c13(seed: u64, _thorough: bool) -> Case {
     // the budget the engine should arrive at decides the node cost in the wide regime
     let budget_ms: u64;
     if rng.chance(2, 5) {
-        let m = if tight { val(&mut rng, 6_000) } else { val(&mut rng, 3_600_000) };
+        let m = if tight { val(&mut rng, 1_500).min(1_500) } else { val(&mut rng, 3_600_000) };
         budget_ms = m.saturating_sub(5);
         case.raw(format!("go movetime {}", m));
     } else {
-        let hi = if tight { 120_000 } else { 3_600_000 };
-        let own = val(&mut rng, hi);
-        let inc = if rng.chance(1, 2) { 0 } else { val(&mut rng, if tight { 3_000 } else { 60_000 }) };
+        let hi = if tight { 40_000 } else { 3_600_000 };
+        let own = if tight { val(&mut rng, hi).min(hi) } else { val(&mut rng, hi) };
+        let inc = if rng.chance(1, 2) { 0 } else if tight { val(&mut rng, 1_000).min(1_000) } else { val(&mut rng, 60_000) };
         let opp = val(&mut rng, 3_600_000);
         let oinc = if rng.chance(1, 2) { 0 } else { val(&mut rng, 60_000) };
         budget_ms = (own / 50 + inc).saturating_sub(155).min(own);
@@ -712,7 +779,27 @@ pub fn gen_c19(seed: u64, _thorough: bool) -> Case {
             swarm_params(&mut rng, &mut case);
         }
     }
-    if pert >= 4 {
+    if pert == 7 {
+        // `ucinewgame` arriving at the instant the timer of a timed search of the same position fires:
+        // the reset must not lose the race against a search thread that is still winding down
+        case.family = "ucinewgame-races-timer".into();
+        case.params.node_cost = *rng.pick(&[100_000u64, 1_000_000]);
+        case.params.oversleep_max = 0;
+        let budget = rng.log_uniform(30, 3_000);
+        let mt = movetime_for(&case, budget);
+        let d_ns = (mt - 5) * 1_000_000;
+        let nc = case.params.node_cost as i64;
+        let jitter = *rng.pick(&[-2i64, -1, 0, 0, 0, 0, 1, 2, 5]) * nc;
+        case.push(GK::NewGame { root: root.clone(), pre: pre.clone() });
+        case.push(GK::PosCur);
+        case.raw(format!("go movetime {}", mt));
+        case.push(GK::Delay((d_ns as i64 + jitter).max(0) as u64));
+        case.raw("ucinewgame");
+        case.push(GK::AwaitBest);
+        if rng.chance(1, 2) {
+            case.push(GK::Delay(rng.log_uniform(1, 5_000_000)));
+        }
+    } else if pert >= 4 {
         // arbitrary prior history: other games, aborted and timed searches, possibly the same position
         let games = rng.range(1, 2);
         for _ in 0..games {
@@ -805,7 +892,7 @@ pub fn gen_c15(seed: u64, thorough: bool) -> Case {
         swarm_params(&mut rng, &mut case);
         case.params.node_cost = 1_000;
         case.params.oversleep_max = 0;
-        let cap: u64 = if thorough { 3_000_000 } else { 150_000 };
+        let cap: u64 = if thorough { 6_000_000 } else { 1_500_000 };
         case.params.max_polls = cap + 50_000;
         case.params.max_steps = cap * 3 + 200_000;
         let nm = *rng.pick(&tiny);
@@ -819,15 +906,15 @@ pub fn gen_c15(seed: u64, thorough: bool) -> Case {
         let moves = long_walk(&mut rng, r.fen, len);
         case.push(GK::NewGame { root: root_cmd(r), pre: moves });
         case.push(GK::PosCur);
+        // half of the runs are left running long enough for the iteration depth to pass 200 on bare kings
+        let run_len = if rng.chance(1, 2) { rng.range(cap / 2, cap) } else { rng.log_uniform(1_000, cap) };
         if rng.chance(1, 2) {
             case.raw("go infinite");
-            case.push(GK::AfterPolls(rng.log_uniform(1_000, cap)));
-            case.raw("stop");
         } else {
             case.raw(format!("go depth {}", *rng.pick(&[2u64, 6, 12, 30, 64, 100, 120, 200, 255])));
-            case.push(GK::AfterPolls(rng.log_uniform(1_000, cap)));
-            case.raw("stop");
         }
+        case.push(GK::AfterPolls(run_len));
+        case.raw("stop");
         case.push(GK::AwaitBest);
         case.raw("isready");
         case.push(GK::AwaitReady);
@@ -847,6 +934,14 @@ pub fn gen_c15(seed: u64, thorough: bool) -> Case {
         // maximal-mobility and many-queens roots
         let mut case = Case::new("C15", "direct-max-mobility", seed, Mode::Direct);
         direct_params(&mut case, if thorough { 2_000_000 } else { 200_000 });
+        if rng.chance(1, 3) {
+            // positions only the FEN reader can produce
+            case.family = "direct-odd-fen-roots".into();
+            let f = *rng.pick(ODD_FENS);
+            case.items.push(ditem(f, &[], Some(rng.range(1, 4) as u8), None));
+            case.items.push(ditem(f, &[], None, Some(rng.log_uniform(10, 20_000))));
+            return case;
+        }
         let nm = *rng.pick(&["218-moves", "nine-queens", "queens-both", "promo-capture", "perft4", "kiwipete"]);
         let r = ROOTS.iter().find(|x| x.name == nm).unwrap();
         let n = rng.below(6);
